@@ -81,8 +81,79 @@ pub struct Node<P: Pad = ()> {
     #[cfg(feature = "weak")]
     pub wslots: RefCell<Vec<WSlot<P>>>,
     #[cfg(feature = "clean")]
-    pub cleaner: cleaners::Cleaner,
+    pub cleaner: CleanerSlot,
     pub pad: P,
+}
+
+/// The Cleaner field of a node; its drop glue is logged (when actions were registered).
+#[cfg(feature = "clean")]
+pub struct CleanerSlot {
+    pub owner: u32,
+    pub registered: Cell<bool>,
+    pub inner: std::mem::ManuallyDrop<cleaners::Cleaner>,
+}
+
+#[cfg(feature = "clean")]
+impl Drop for CleanerSlot {
+    fn drop(&mut self) {
+        if self.registered.get() {
+            emit(json!({"e": "call", "op": "gluec", "a": self.owner}));
+            let _g = GlueGuard { op: "gluec", a: self.owner, k: 'c', i: 0, entered_panicking: std::thread::panicking() };
+            unsafe { std::mem::ManuallyDrop::drop(&mut self.inner) };
+        } else {
+            unsafe { std::mem::ManuallyDrop::drop(&mut self.inner) };
+        }
+    }
+}
+
+/// A Cc captured by a cleaning action. Dropping it (after the action ran, or when the
+/// closure is dropped without having run) is logged like a field drop.
+#[cfg(feature = "clean")]
+pub struct CapSlot<P: Pad> {
+    pub owner: u32,
+    pub action: u32,
+    pub target: u32,
+    pub inner: Option<Cc<Node<P>>>,
+}
+
+#[cfg(feature = "clean")]
+impl<P: Pad> Drop for CapSlot<P> {
+    fn drop(&mut self) {
+        world::caps_remove(self.owner, self.action);
+        if let Some(cc) = self.inner.take() {
+            emit(json!({"e": "call", "op": "glue", "a": self.owner, "k": "c", "i": self.action, "o": self.target}));
+            let _g = GlueGuard { op: "glue", a: self.owner, k: 'c', i: self.action, entered_panicking: std::thread::panicking() };
+            drop(cc);
+        }
+    }
+}
+
+/// Body of a cleaning action.
+#[cfg(feature = "clean")]
+pub fn action_body<P: Pad>(c: u32, cap: CapSlot<P>) {
+    emit(json!({"e": "cb", "cb": "action", "o": c, "it": is_tracing(), "ok": true}));
+    world::push_ctx(0, std::ptr::null(), CbKind::Action);
+    let mut g = CbGuard { cb: "action", o: c, done: false };
+    loop {
+        match director::next_in_cb::<P>(CbKind::Action, c) {
+            Decision::Do(op) => world::exec::<P>(&op),
+            Decision::Return => {
+                g.done = true;
+                emit(json!({"e": "cbx", "cb": "action", "o": c, "panic": false}));
+                break;
+            }
+            Decision::Panic => {
+                g.done = true;
+                emit(json!({"e": "cbx", "cb": "action", "o": c, "panic": true}));
+                if std::thread::panicking() {
+                    break;
+                }
+                drop(g);
+                std::panic::panic_any(Injected);
+            }
+        }
+    }
+    drop(cap);
 }
 
 impl<P: Pad> Node<P> {
@@ -96,9 +167,14 @@ impl<P: Pad> Node<P> {
             #[cfg(feature = "weak")]
             wslots: RefCell::new((1..=nw).map(|i| WSlot { owner: id, idx: i, target: 0, inner: None }).collect()),
             #[cfg(feature = "clean")]
-            cleaner: cleaners::Cleaner::new(),
+            cleaner: CleanerSlot { owner: id, registered: Cell::new(false), inner: std::mem::ManuallyDrop::new(cleaners::Cleaner::new()) },
             pad: P::default(),
         }
+        .born()
+    }
+    fn born(self) -> Self {
+        world::live_add(self.id);
+        self
     }
 }
 
@@ -126,6 +202,9 @@ impl Drop for CbGuard {
 fn callback<P: Pad>(kind: CbKind, node: &Node<P>) {
     let o = node.id;
     let ok = node.canary.get() == CANARY ^ o;
+    if kind == CbKind::Drop && ok {
+        world::live_remove(o);
+    }
     emit(json!({"e": "cb", "cb": kind.name(), "o": o, "it": is_tracing(), "ok": ok}));
     if kind == CbKind::Drop && ok && world::PENDING_NEW.with(|c| c.get()) == o {
         // The value never reached an allocation: Cc::new is unwinding (its automatic collection panicked)
